@@ -43,7 +43,7 @@ PROPS = {
                           eng("catching", "C05", 600, 10000, ["dest", "panic"]),
                           dict(name="fe", family="fe", profile="fe", quick=700, thorough=10000, tags=["dest", "panic"]),   # the input representations of the front ends: lists of one entry, blank entries, []-suffixed names
                           sat("helpers", "helpers", 500, 6000, ["fields"], shard=300)]),   # a schema names the fields it was given, not those of schemas derived from it later (fields it does not name are never written)   # destinations next to nodes that catch: a leaf holds the coercion of its own input),
-    "C04": dict(theorems=["C04_parse_absent_iff", "C04_falsy_values_are_present", "C04_validate_absent_examples", "C04_absent_default", "C04_absent_required", "C04_absent_optional", "C04_slice_absent_required", "C04_slice_absent_optional", "C04_ptr_absent_notnil", "C04_ptr_absent_optional", "C04_engine_computes_semantics"], cone=ENGINE_CONE + ["Proofs/AbsentP.v"], rule=ENGINE_RULE,
+    "C04": dict(theorems=["C04_parse_absent_iff", "C04_falsy_values_are_present", "C04_validate_absent_examples", "C04_absent_default", "C04_absent_required", "C04_absent_optional", "C04_slice_absent_required", "C04_slice_absent_optional", "C04_ptr_absent_notnil", "C04_ptr_absent_optional", "C04_engine_computes_semantics", "C04_preprocess_output_is_parsed", "C04_preprocess_output_is_validated", "C04_preprocess_blank_output_is_absent"], cone=ENGINE_CONE + ["Proofs/AbsentP.v"], rule=ENGINE_RULE,
                 families=[eng("engine", "C04", 1200, 20000, ["nil", "issues", "dest", "calls", "panic"]),
                           # Required / Optional / Default / Catch called in every order on one schema
                           dict(name="builder", family="builder", profile="default", quick=900, thorough=15000, shard=150, tags=["nil", "issues", "dest", "panic"]),
